@@ -32,7 +32,7 @@ ASSUMPTIONS = ['"parsing fails" is read as: Message.parse raises a protocol erro
                'per exchange type in thorough']
 EXPECT_REACH = ['protected_verified', 'roundtrip_compared', 'over_padded_judged', 'tamper.flip', 'tamper.trunc', 'tamper.extend', 'tamper.cross_sa', 'tamper.reflect',
                 'tamper.flags', 'mod16_all_residues', 'integ.2', 'integ.12', 'integ.14', 'encr.128', 'encr.256']
-TAMPER = ('flip', 'flip', 'flip', 'trunc', 'extend', 'cross_sa', 'reflect', 'flags', 'hdr', 'hdr', 'badpad', 'badpad')
+TAMPER = ('flip', 'flip', 'flip', 'trunc', 'extend', 'cross_sa', 'reflect', 'flags', 'hdr', 'hdr', 'badpad', 'badpad', 'prefix', 'prefix')
 
 
 class ParseWatch:
@@ -70,6 +70,16 @@ class Tamperer(Forger):
         self.watch, self.tap = watch, tap
 
     def build(self, op, r, node, sa):
+        if op['kind'] == 'prefix':
+            # "extending it": octets put in FRONT of an authentic datagram (zeros as a Non-ESP marker would be, or anything else)
+            spi_i, spi_r = (sa.my_spi, sa.peer_spi) if sa.is_initiator else (sa.peer_spi, sa.my_spi)
+            recs = [x for x in self.wire.sent if x['dst'] == str(sa.my_addr) and x['h'] is not None and (x['h']['spi_i'], x['h']['spi_r']) == (spi_i, spi_r)
+                    and x['h']['exch'] != 34]
+            if not recs:
+                return None
+            rec = recs[-1 - (op.get('pick', 0) % min(len(recs), 4))]
+            pre = r.choice([b'\0\0\0\0', b'\0\0\0\0', b'\0' * 8, b'\0', bytes(r.getrandbits(8) for _ in range(4)), b'\xff\xff\xff\xff'])
+            return pre + rec['data'], f'authentic {EXCH.get(rec["h"]["exch"])} id {rec["h"]["id"]} with {len(pre)} octets ({pre.hex()}) put in front'
         if op['kind'] != 'badpad':
             return super().build(op, r, node, sa)
         # an authentic message (right keys, valid checksum) whose Pad Length octet is wrong: it claims at least as many padding octets as
